@@ -575,6 +575,9 @@ class Translator:
         return self.tr(e)
 
     def t_Subscript(self, n):
+        if isinstance(n.value, ast.Attribute) and n.value.attr == "degree" and not isinstance(n.slice, (ast.Slice, ast.Tuple)):
+            # G.degree[v] is G.degree(v) (DegreeView.__call__ on a single node returns self[node])
+            return self.tr(ast.copy_location(ast.Call(func=n.value, args=[n.slice], keywords=[]), n))
         base = self.tr(n.value)
         idx = n.slice
         if not isinstance(idx, ast.Slice):
@@ -727,9 +730,9 @@ class Translator:
             if isinstance(a0, ast.Attribute) and a0.attr in ("nodes", "edges"):
                 a0 = ast.copy_location(ast.Call(func=a0, args=[], keywords=[]), a0)   # len(G.edges) = len(G.edges())
             return length_of(self.tr(a0))
-        if isinstance(n.func, ast.Attribute) and not args and not kw and n.func.attr in ("number_of_edges", "number_of_nodes", "order"):
-            # networkx synonyms: G.number_of_edges() = len(G.edges()), G.number_of_nodes() = G.order() = len(G.nodes())
-            view = "edges" if n.func.attr == "number_of_edges" else "nodes"
+        if isinstance(n.func, ast.Attribute) and not args and not kw and n.func.attr in ("number_of_edges", "number_of_nodes", "order", "size"):
+            # networkx synonyms: G.number_of_edges() = G.size() = len(G.edges()), G.number_of_nodes() = G.order() = len(G.nodes())
+            view = "edges" if n.func.attr in ("number_of_edges", "size") else "nodes"
             inner = ast.Call(func=ast.Attribute(value=n.func.value, attr=view, ctx=ast.Load()), args=[], keywords=[])
             return length_of(self.tr(ast.fix_missing_locations(ast.copy_location(inner, n))))
         if name in ("abs", "np.abs", "numpy.abs", "math.fabs", "np.fabs") and len(args) == 1:
@@ -924,7 +927,11 @@ class Translator:
             dom = ("filter", dom, norm_conds(inner.tr(c) for c in g.ifs))
         if len(n.generators) > 1:
             return self.opaque(n)
-        return atom_poly(("seq", inner.tr(n.elt), dom, level))
+        body = inner.tr(n.elt)
+        if isinstance(n, ast.ListComp) and not g.ifs and isinstance(dom, tuple) and dom and dom[0] == "range" and is_const(body) is not None and dom[1] == ZERO:
+            # [c for _ in range(n)] is [c] * n for a constant c
+            return atom_poly(("repeat", atom_poly(("list", (body,))), dom[2]))
+        return atom_poly(("seq", body, dom, level))
 
     t_GeneratorExp = t_ListComp
 
